@@ -76,6 +76,10 @@ class C10(PropBase):
             c['log'] = wellformed_log(rnd, c['directed'])
             yield c
 
+    def out_of_scope(self, op, impl, model):
+        # ill-formed logs ('-' without a '+' of the pair before it) are outside the quantifier
+        return op[0] in ('rint',) and 'KeyError' in (impl, model)
+
     def program(self, case):
         hist = tup(case['hist'])
         d = case['directed']
